@@ -49,6 +49,32 @@ struct Sched {
 struct Shared {
     m: Mutex<Sched>,
     cv: Condvar,
+    /// bumped (under `m`) at every state change; a waiter spins on it for a short while before it sleeps on the condition
+    /// variable, because a futex wake-up costs 100-200 us on this kind of machine and a run has some twenty handoffs
+    epoch: std::sync::atomic::AtomicU64,
+}
+
+impl Shared {
+    fn changed(&self) {
+        self.epoch.fetch_add(1, Ordering::SeqCst);
+        self.cv.notify_all();
+    }
+    /// give up the lock until the state may have changed (spurious returns are fine: every caller re-checks its condition)
+    fn wait<'a>(&'a self, g: std::sync::MutexGuard<'a, Sched>) -> std::sync::MutexGuard<'a, Sched> {
+        let seen = self.epoch.load(Ordering::SeqCst);
+        drop(g);
+        for _ in 0..20_000 {
+            if self.epoch.load(Ordering::SeqCst) != seen {
+                return self.m.lock().unwrap_or_else(|e| e.into_inner());
+            }
+            std::hint::spin_loop();
+        }
+        let g = self.m.lock().unwrap_or_else(|e| e.into_inner());
+        if self.epoch.load(Ordering::SeqCst) != seen {
+            return g;
+        }
+        self.cv.wait_timeout(g, std::time::Duration::from_millis(2)).unwrap_or_else(|e| e.into_inner()).0
+    }
 }
 
 static CURRENT: Mutex<Option<Arc<Shared>>> = Mutex::new(None);
@@ -60,9 +86,9 @@ fn hook(name: &str) {
     let mut g = sh.m.lock().unwrap_or_else(|e| e.into_inner());
     g.status[tid] = Status::Parked(name.to_string());
     g.grant = None;
-    sh.cv.notify_all();
+    sh.changed();
     while g.grant != Some(tid) {
-        g = sh.cv.wait(g).unwrap_or_else(|e| e.into_inner());
+        g = sh.wait(g);
     }
     g.status[tid] = Status::Running;
 }
@@ -79,7 +105,7 @@ fn res_text(r: std::thread::Result<edp_client::Result<erltf::types::ExternalPid>
 fn quiesce(sh: &Shared) -> Vec<Status> {
     let mut g = sh.m.lock().unwrap_or_else(|e| e.into_inner());
     while g.grant.is_some() || g.status.iter().any(|s| *s == Status::Running) {
-        g = sh.cv.wait(g).unwrap_or_else(|e| e.into_inner());
+        g = sh.wait(g);
     }
     g.status.clone()
 }
@@ -88,7 +114,7 @@ fn grant(sh: &Shared, t: usize) {
     let mut g = sh.m.lock().unwrap_or_else(|e| e.into_inner());
     g.status[t] = Status::Running;
     g.grant = Some(t);
-    sh.cv.notify_all();
+    sh.changed();
 }
 
 pub struct RunOut {
@@ -107,7 +133,7 @@ pub fn controlled_run(id0: u32, ser0: u64, cre: u32, counts: &[usize], choose: &
     let alloc = Arc::new(PidAllocator::new(Atom::new("c16@localhost"), cre));
     alloc.next_id_test_only().store(id0, Ordering::SeqCst);
     alloc.next_serial_test_only().store(ser0, Ordering::SeqCst);
-    let sh = Arc::new(Shared { m: Mutex::new(Sched { status: vec![Status::Running; n], grant: None }), cv: Condvar::new() });
+    let sh = Arc::new(Shared { m: Mutex::new(Sched { status: vec![Status::Running; n], grant: None }), cv: Condvar::new(), epoch: std::sync::atomic::AtomicU64::new(0) });
     *CURRENT.lock().unwrap_or_else(|e| e.into_inner()) = Some(sh.clone());
     verif_hooks::set_hook(Some(Box::new(hook)));
     let mut handles = vec![];
@@ -124,7 +150,7 @@ pub fn controlled_run(id0: u32, ser0: u64, cre: u32, counts: &[usize], choose: &
             let mut g = sh.m.lock().unwrap_or_else(|e| e.into_inner());
             g.status[t] = Status::Done;
             g.grant = None;
-            sh.cv.notify_all();
+            sh.changed();
             v
         }));
     }
